@@ -1052,6 +1052,21 @@ def corner_frames(rng, p):
     return frames
 
 
+def frames_same(a, b):
+    """None when the two result frames are the same table (column order, row order, values with the 1e-8 rule); column
+    labels are compared as text (a NaN label -- record transforms on empty inputs produce them -- is not equal to itself)"""
+    E = env()
+
+    def labelled(df):
+        d = df.copy()
+        d.columns = ["<%s:%s>" % (type(c).__name__, c) for c in df.columns]
+        return d
+    try:
+        return E["pipes"].frames_equiv(labelled(a), labelled(b), check_col_order=True, check_row_order=True)
+    except Exception as e:
+        return None if a.equals(b) else "frames not comparable: " + type(e).__name__
+
+
 def safe(f):
     try:
         return ("ok", f())
@@ -1121,7 +1136,7 @@ def oracle(p, rng, frames=None, which=None):
         if res_q[0] != res_p[0]:
             fails.append({"variant": name, "kind": "result_differs", "detail": f"original {res_p[0]}: {str(res_p[1])[:120]} / rebuilt {res_q[0]}: {str(res_q[1])[:120]}", "text": text})
         elif res_p[0] == "ok":
-            why = E["pipes"].frames_equiv(res_p[1], res_q[1], check_col_order=True, check_row_order=True)
+            why = frames_same(res_p[1], res_q[1])
             if why is not None:
                 fails.append({"variant": name, "kind": "result_differs", "detail": why, "text": text})
     for name, mk in variants(p, which):
